@@ -33,6 +33,17 @@ def materialize(tree, parent, seed=None):
             continue
         write_file(os.path.join(root, *f["path"]),
                    content(tree_key(tree, f), f["size"], f.get("gen", 0), seed, f.get("mode", "rand")))
+    if tree.get("ext_files"):      # files kept OUTSIDE the content root, reached through symbolic links
+        ext = os.path.join(parent, "_ext_" + tree["name"])
+        for f in tree["ext_files"]:
+            write_file(os.path.join(ext, *f["path"]), content("ext/" + tree_key(tree, f), f["size"], 0, seed))
+    for ln in tree.get("symlinks", []):
+        dst = os.path.join(root, *ln["path"])
+        os.makedirs(os.path.dirname(dst), exist_ok=True)
+        if "ext" in ln:
+            os.symlink(os.path.join(parent, "_ext_" + tree["name"], *ln["ext"]), dst)
+        else:
+            os.symlink(os.path.relpath(os.path.join(root, *ln["target"]), os.path.dirname(dst)), dst)
     for f in tree["files"]:
         if "link_of" in f:      # a second name for the same inode (hard link): still a regular file
             src = os.path.join(root, *tree["files"][f["link_of"]]["path"])
@@ -47,7 +58,8 @@ def disk_files(root):
     if os.path.isfile(root):
         return [([], os.path.getsize(root))]
     out = []
-    for dp, dns, fns in os.walk(root):
+    # symbolic links are followed: what they lead to is part of the payload (harness trees have no link cycles)
+    for dp, dns, fns in os.walk(root, followlinks=True):
         for fn in fns:
             p = os.path.join(dp, fn)
             comps = os.path.relpath(p, root).split(os.sep)
